@@ -5,6 +5,6 @@ CONSTANTS
   MaxSizes = {1, 2}
   MaxSponsors = {1, 2}
   Attrs <- MCAttrs
+  MaxVisits = 1
 INVARIANTS TypeOK UniqueIDs WithinLimits SizeIsSum OwnedIsCount StreamedNotReaddable PreparedAreStreamed NotStreamingClean
-PROPERTIES ExpiryProp HandOutProp
 CHECK_DEADLOCK FALSE
